@@ -38,11 +38,15 @@ def col_of(name):
         return None
 
 
-def explore(k, c, shape, ratio=2.0, step=2, order=2, num_terms=2, max_paths=3000, timeout_ms=20000):
-    """all feasible paths of the real pipeline; each path result is a dict"""
+def explore(k, c, shape, ratio=2.0, step=2, order=2, num_terms=2, max_paths=3000, timeout_ms=20000, nan_cols=()):
+    """all feasible paths of the real pipeline; each path result is a dict.
+    nan_cols: columns whose estimates are all NaN (a point where the function is undefined at every step)"""
     mods = cm.nd_mods()
     lim, ex = mods['lim'], mods['ex']
     der, steps = make_inputs(k, c)
+    for j in nan_cols:
+        for i in range(k):
+            np.asarray(der)[i, j] = float('nan')
     pos = [sn.lift(v) > 0 for v in cm.flat_list(steps)]
 
     def harness():
@@ -75,7 +79,16 @@ def split_conds(path, c):
         cols = {col_of(v) for v in sn.term_vars(t)}
         cols.discard(None)
         if len(cols) == 1:
-            groups[cols.pop()].append(t.sexpr())
+            groups[cols.pop()].append(t)
         elif len(cols) > 1:
             mixed.append(t)
-    return {j: tuple(sorted(v)) for j, v in groups.items()}, mixed
+    TERMS.clear()
+    out = {}
+    for j, v in groups.items():
+        key = tuple(sorted(t.sexpr() for t in v))
+        out[j] = key
+        TERMS[(j, key)] = list(v)
+    return out, mixed
+
+
+TERMS = {}     # (column, key) -> the z3 conjuncts behind the key of the most recent split_conds call
